@@ -17,6 +17,20 @@ CHECK_DEADLOCK FALSE
 """ % (mode, k, ", ".join(map(str, caps)), qlen, ", ".join('"%s"' % d for d in dirs))
 
 
+def rand_cfg():
+    return """SPECIFICATION GSpec
+CONSTANTS
+  NMin = 6
+  NMax = 12
+  Caps = {1, 2, 3, 4}
+  MaxQ = 5
+  Dirs = {"out", "in"}
+  EdgeFactor = 3
+  BackMax = 2
+CHECK_DEADLOCK FALSE
+"""
+
+
 def classify(events, pos):
     ev = events[pos]
     g = events[0]
@@ -116,11 +130,24 @@ def run(ctx):
         write_ndjson(hp, ctx.printed_json(r.out))
         batch(ctx, hp, "p%d" % i, conts)
         os.unlink(hp)
+    # 3. sampled larger graphs (6..12 nodes, DAG-leaning with up to two back edges, capacities 1..4, 1..5 queries, then every
+    #    reach and every can-reach pair): the bidirectional component search and the partial-reach rule only meet their hard
+    #    cases on graphs with fan-out and diamonds that 5 components do not have
+    n_rand = 300 if quick else 3000
+    r = ctx.tlc(AREA, "ReachRandGen", cfg_text=rand_cfg(), workers=1, simulate="num=%d" % n_rand, depth=60, timeout=1800)
+    hp = os.path.join(ctx.work, "hist-rand.ndjson")
+    hs = ctx.printed_json(r.out)
+    if len(hs) < n_rand // 2:
+        raise ToolFailure("random generator produced %d histories: %s" % (len(hs), r.out[-1500:]))
+    write_ndjson(hp, hs)
+    batch(ctx, hp, "rand", "rotate")
+    os.unlink(hp)
+    ctx.cov["sampled_large_graphs"] = len(hs)
     ctx.cov["exhaustive"] = True
     ctx.cov["rule"] = ("generated (mode, size, capacities, query-sequence length, directions, containers) = %s.  dag mode: every DAG on K "
                        "components x every query sequence, components lifted to single nodes or 2-cycles, followed by a sweep that reads "
                        "every cache entry back plus can/or/xor questions; nodes mode: every digraph on N nodes incl. self loops with every "
-                       "question.  non-trivial = some node has two distinct parents or the graph has a cycle" % (plans,))
+                       "question; plus %d sampled histories (tlc -simulate of ReachRandGen) on DAG-leaning graphs of 6..12 nodes with n-2..3n edges, at most two of them backwards, capacities 1..4, 1..5 queries followed by every reach and can-reach question.  non-trivial = some node has two distinct parents or the graph has a cycle" % (plans, n_rand))
 
 
 def selftest(ctx):
